@@ -32,7 +32,7 @@ CONF = {
 
 SIZES = {
     # (edges on primary, edges on the other universes, random universes, histories each, ops each)
-    "quick": (1500, 400, 3, 30, 40),
+    "quick": (1500, 400, 5, 22, 40),
     "thorough": (60000, 15000, 24, 120, 80),
 }
 
